@@ -20,6 +20,7 @@
 #include <xtl/xoptional_sequence.hpp>
 #include <xtl/xcomplex_sequence.hpp>
 #include "vjson.hpp"
+#include <algorithm>
 #include <cmath>
 #include <complex>
 #include <iostream>
@@ -35,6 +36,14 @@
 #endif
 #ifndef PARSEQ_ALGO_CPLX
 #define PARSEQ_ALGO_CPLX 0
+#endif
+// cross-container element assignment (XAssign / XCopy: proxy = proxy of the sibling container type): 1 if it compiles with the
+// headers under test (probe_xassign.cpp), per flavour
+#ifndef PARSEQ_XASSIGN_OPT
+#define PARSEQ_XASSIGN_OPT 0
+#endif
+#ifndef PARSEQ_XASSIGN_CPLX
+#define PARSEQ_XASSIGN_CPLX 0
 #endif
 #ifndef PARSEQ_GROUP
 #define PARSEQ_GROUP 1
@@ -107,6 +116,24 @@ template <class T, bool B, class A> struct info<xtl::xcomplex_vector<T, B, A>>
 template <class T, std::size_t N, bool B> struct info<xtl::xcomplex_array<T, N, B>>
 { using tag = cplx_tag; using scalar = T; static constexpr bool vec = false; static constexpr size_t ext = N; };
 
+// the sibling container type: same flavour, same container kind / extent / flag container, another (wider: every value of the
+// original type is represented exactly) value type.  Its element proxies are the operands of the cross-container assignments.
+template <class T> struct wider;
+template <> struct wider<int> { using type = long long; };
+template <> struct wider<float> { using type = double; };
+template <> struct wider<double> { using type = long double; };
+template <> struct wider<long long> { using type = long long; };
+template <> struct wider<long double> { using type = long double; };
+template <class C> struct sibling;
+template <class T, class A, class BC> struct sibling<xtl::xoptional_vector<T, A, BC>>
+{ using U = typename wider<T>::type; using type = xtl::xoptional_vector<U, std::allocator<U>, BC>; };
+template <class T, std::size_t I, class BC> struct sibling<xtl::xoptional_array<T, I, BC>>
+{ using U = typename wider<T>::type; using type = xtl::xoptional_array<U, I, BC>; };
+template <class T, bool B, class A> struct sibling<xtl::xcomplex_vector<T, B, A>>
+{ using U = typename wider<T>::type; using type = xtl::xcomplex_vector<U, B, std::allocator<U>>; };
+template <class T, std::size_t N, bool B> struct sibling<xtl::xcomplex_array<T, N, B>>
+{ using U = typename wider<T>::type; using type = xtl::xcomplex_array<U, N, B>; };
+
 // ------------------------------------------------------------------ flavour-specific access
 template <class C, class Tag> struct fl;
 
@@ -149,6 +176,16 @@ template <class C> struct fl<C, opt_tag>
         else if (wk == "muleq") r *= S(a);
         else if (wk == "addpair") r += make(a, b);         // ... with an xoptional operand
         else bad_script("bad write kind", wk);
+    }
+    // a sibling container holding `pad` missing elements followed by the elements of src (copied storage by storage)
+    template <class Sib> static Sib make_sib(const C& src, size_t pad)
+    {
+        using U = typename sibling<C>::U;
+        size_t n = std::min(src.size(), std::min(src.value().size(), src.has_value().size()));
+        Sib f(info<C>::vec ? pad + n : info<C>::ext, U(0));
+        for (size_t x = 0; x < pad && x < f.size(); ++x) { f.value()[x] = U(0); f.has_value()[x] = false; }
+        for (size_t x = 0; x < n && pad + x < f.size(); ++x) { f.value()[pad + x] = U(src.value()[x]); f.has_value()[pad + x] = bool(src.has_value()[x]); }
+        return f;
     }
     // proxy.swap(proxy) of elements i and j
     static void proxy_swap(C& c, size_t i, size_t j) { auto r = c[i]; auto q = c[j]; r.swap(q); }
@@ -221,6 +258,15 @@ template <class C> struct fl<C, cplx_tag>
         else if (wk == "pair" || wk == "from" || wk == "addpair") { (void)src; bad_script("built without PARSEQ_CPLX_ASSIGN, write kind", wk); }
 #endif
         else bad_script("bad write kind", wk);
+    }
+    template <class Sib> static Sib make_sib(const C& src, size_t pad)
+    {
+        using U = typename sibling<C>::U;
+        size_t n = std::min(src.size(), std::min(src.real().size(), src.imag().size()));
+        Sib f(info<C>::vec ? pad + n : info<C>::ext);
+        for (size_t x = 0; x < pad && x < f.size(); ++x) { f.real()[x] = U(0); f.imag()[x] = U(0); }
+        for (size_t x = 0; x < n && pad + x < f.size(); ++x) { f.real()[pad + x] = U(src.real()[x]); f.imag()[pad + x] = U(src.imag()[x]); }
+        return f;
     }
     static void proxy_swap(C&, size_t, size_t) { bad_script("no proxy swap for the complex flavour:", "ProxySwap"); }
     static std::string rel(const C&, const C&) { bad_script("no relational operators for the complex flavour:", "Rel"); }
@@ -347,6 +393,35 @@ template <class C> struct fwd_ops<C, false>
     template <int Mask, class Key> static void algo(C&, const C&, const std::string& alg, std::ptrdiff_t, std::ptrdiff_t, std::ptrdiff_t, Key&&) { bad_script("built without forward iterators for this type:", alg); }
 };
 
+template <class C> struct machine;
+
+// cross-container assignment, compiled only where `proxy = proxy of the sibling type` is well-formed
+template <class C, bool Enabled, bool Fwd> struct xops
+{
+    using Sib = typename sibling<C>::type;
+    template <class R> static void assign(R& r, Sib& f, const std::string& spath, const std::string& snav, size_t p, bool mv)
+    {
+        machine<Sib> ms;
+        auto wm = [&](auto& sr) { if (mv) r = std::move(sr); else r = sr; };
+        auto wc = [&](const auto& sr) { r = sr; };
+        if (!ms.via_mut(f, spath, snav, p, wm) && !ms.via_const(f, spath, snav, p, wc)) bad_script("bad source path", spath);
+    }
+    static void copy(C& x, Sib& f, std::ptrdiff_t a, std::ptrdiff_t b, std::ptrdiff_t m, const std::string& dir) { copy_impl(std::integral_constant<bool, Fwd>(), x, f, a, b, m, dir); }
+    static void copy_impl(std::true_type, C& x, Sib& f, std::ptrdiff_t a, std::ptrdiff_t b, std::ptrdiff_t m, const std::string& dir)
+    {
+        if (dir == "fwd") std::copy(f.begin() + a, f.begin() + b, x.begin() + m);
+        else if (dir == "rev") std::copy(f.begin() + a, f.begin() + b, x.rbegin() + m);
+        else bad_script("bad direction", dir);
+    }
+    static void copy_impl(std::false_type, C&, Sib&, std::ptrdiff_t, std::ptrdiff_t, std::ptrdiff_t, const std::string&) { bad_script("built without forward iterators for this type:", "XCopy"); }
+};
+template <class C, bool Fwd> struct xops<C, false, Fwd>
+{
+    using Sib = typename sibling<C>::type;
+    template <class R> static void assign(R&, Sib&, const std::string&, const std::string&, size_t, bool) { bad_script("cross-container assignment not built into this driver:", "XAssign"); }
+    static void copy(C&, Sib&, std::ptrdiff_t, std::ptrdiff_t, std::ptrdiff_t, const std::string&) { bad_script("cross-container assignment not built into this driver:", "XCopy"); }
+};
+
 template <class C>
 struct machine
 {
@@ -355,6 +430,9 @@ struct machine
     using value_type = typename F::value_type;
     static constexpr bool has_fwd = I::vec || (std::is_same<typename I::tag, opt_tag>::value ? opt_array_fwd_iter : cplx_array_fwd_iter);
     using FW = fwd_ops<C, has_fwd>;
+    using Sib = typename sibling<C>::type;
+    static constexpr bool has_xassign = (std::is_same<typename I::tag, opt_tag>::value ? PARSEQ_XASSIGN_OPT : PARSEQ_XASSIGN_CPLX) != 0;
+    using XO = xops<C, has_xassign, has_fwd>;
 
     struct holder
     {
@@ -430,6 +508,14 @@ struct machine
     }
     template <class CC = C> std::enable_if_t<!info<CC>::vec> do_resize(int, const std::string& op, const vj::value&)
     { bad_script("no resize for the array flavour:", op); }
+    // x.resize(n, <element proxy of sx reached through path / nav>): sx may be x itself (the argument aliases the storages)
+    template <class CC = C> std::enable_if_t<info<CC>::vec> do_resize_from(C& x, C& sx, size_t n, const std::string& path, const std::string& nav, size_t j)
+    {
+        auto rz = [&](const auto& sr) { x.resize(n, sr); };
+        if (!via_mut(sx, path, nav, j, rz) && !via_const(sx, path, nav, j, rz)) bad_script("bad source path", path);
+    }
+    template <class CC = C> std::enable_if_t<!info<CC>::vec> do_resize_from(C&, C&, size_t, const std::string&, const std::string&, size_t)
+    { bad_script("no resize for the array flavour:", "ResizeFrom"); }
 
     std::string step(const vj::value& e)
     {
@@ -482,6 +568,35 @@ struct machine
             else if (op == "Rel") { const C& cx = O(k); const C& cy = O(o); val = F::rel(cx, cy); }
             else if (op == "ProxySwap") F::proxy_swap(O(k), size_t(a.num("i")), size_t(a.num("j")));
             else if (op == "Resize" || op == "ResizeV" || op == "ResizeO") do_resize(k, op, a);
+            else if (op == "ResizeFrom") do_resize_from(O(k), O(int(a.num("s")) - 1), size_t(a.num("n")), a.str("path"), a.str("nav"), size_t(a.num("j")));
+            else if (op == "CtorFrom")
+            {
+                rebuild(k, [&](void* p)
+                {
+                    C* np = nullptr;
+                    size_t n = size_t(a.num("n"));
+                    auto mk = [&](const auto& sr) { np = new (p) C(n, sr); };
+                    if (!via_mut(O(o), a.str("path"), a.str("nav"), size_t(a.num("j")), mk) && !via_const(O(o), a.str("path"), a.str("nav"), size_t(a.num("j")), mk))
+                        bad_script("bad source path", a.str("path"));
+                    return np;
+                });
+            }
+            else if (op == "XAssign")
+            {
+                size_t pad = size_t(a.num("pad"));
+                Sib f = F::template make_sib<Sib>(O(o), pad);
+                const std::string& sp = a.str("spath"); const std::string& sn = a.str("snav");
+                size_t p = pad + size_t(a.num("j"));
+                bool mv = a.num("mv") != 0;
+                auto wr = [&](auto& r) { XO::assign(r, f, sp, sn, p, mv); };
+                if (!via_mut(O(k), a.str("path"), a.str("nav"), size_t(a.num("i")), wr)) bad_script("bad write path", a.str("path"));
+            }
+            else if (op == "XCopy")
+            {
+                std::ptrdiff_t pad = std::ptrdiff_t(a.num("pad"));
+                Sib f = F::template make_sib<Sib>(O(o), size_t(pad));
+                XO::copy(O(k), f, pad + std::ptrdiff_t(a.num("i")), pad + std::ptrdiff_t(a.num("j")), std::ptrdiff_t(a.num("m")), a.str("dir"));
+            }
             else if (op == "At")
             {
                 size_t i = a.num("h") ? (std::numeric_limits<size_t>::max() - size_t(a.num("i"))) : size_t(a.num("i"));
